@@ -194,11 +194,12 @@ def full_waveform_is_the_superposition_of_received_signals():
     times = symarr("times")
     n = len(times)
     assume(n >= 2)
-    dt = times[1] - times[0]
-    assume(dt > 0)
+    dt = 1
+    assume(eq(times[1] - times[0], 1))         # time unit chosen so that the sampling interval is 1 (keeps the index arithmetic linear)
     s1 = obj("pyrex.signals.Signal", times=symarr("t1"), values=symarr("v1"), _value_type=None)
     s2 = obj("pyrex.signals.Signal", times=symarr("t2"), values=symarr("v2"), _value_type=None)
-    assume(And(len(s1.times) >= 1, len(s2.times) >= 1, s1.times[-1] >= s1.times[0], s2.times[-1] >= s2.times[0]))
+    assume(And(len(s1.times) >= 1, len(s2.times) >= 1))
+    assume(And(s1.times[-1] >= s1.times[0], s2.times[-1] >= s2.times[0]))
     a = obj("pyrex.antenna.Antenna", signals=[s1, s2], noisy=False)
     regrid = []
 
